@@ -49,9 +49,12 @@ func c13paths() []c13path {
 				for q := int32(0); q <= 2; q++ {
 					for _, r := range []bool{false, true} {
 						for _, mp := range []string{"", "m1"} {
-							for _, c := range []string{"disconnect", "drop", "keepalive", "protocol-error", "leave", "disconnect-then-leave-reordered-gossip", "leave-detected-500ms-apart", "disconnect-removal-lost-fullstate-then-leave"} {
+							for _, c := range []string{"disconnect", "drop", "keepalive", "protocol-error", "leave", "disconnect-then-leave-reordered-gossip", "leave-detected-500ms-apart", "disconnect-removal-lost-fullstate-then-leave", "drop-while-other-nodes-unreachable"} {
 								if strings.Contains(c, "leave") && (n == 1 || (len(ws) == 1 && ws[0] == 1)) {
 									continue
+								}
+								if c == "drop-while-other-nodes-unreachable" && (n == 1 || ws[0] != 1 || len(ws) < 2) {
+									continue // needs a watcher on the dying session's own node and one (whose subscription is known there) elsewhere
 								}
 								if c == "leave-detected-500ms-apart" && n < 3 {
 									continue
@@ -125,6 +128,13 @@ func TestC13Wills(t *testing.T) {
 					d.Disconnect()
 				case "drop":
 					d.Drop()
+				case "drop-while-other-nodes-unreachable":
+					// the other nodes stopped answering but have not been declared failed yet: their watchers' subscriptions are
+					// still listed on node 1, the will cannot reach them; node 1's own watchers are owed it all the same
+					for n := 2; n <= p.Nodes; n++ {
+						w.SetUnreachable(1, n, true)
+					}
+					d.Drop()
 				case "keepalive":
 					w.Idle(6 * time.Second)
 				case "protocol-error":
@@ -168,6 +178,9 @@ func TestC13Wills(t *testing.T) {
 					if strings.Contains(p.Cause, "leave") && x.node == 1 {
 						continue
 					}
+					if p.Cause == "drop-while-other-nodes-unreachable" && x.node != 1 {
+						continue
+					}
 					var got []*packet.Publish
 					for _, pk := range x.c.Publishes() {
 						got = append(got, pk)
@@ -204,7 +217,7 @@ func TestC13Wills(t *testing.T) {
 						return
 					}
 				}
-				if !(strings.Contains(p.Cause, "leave") && fw.Node.ID == 1) {
+				if !(strings.Contains(p.Cause, "leave") && fw.Node.ID == 1) && p.Cause != "drop-while-other-nodes-unreachable" {
 					own, other := 0, 0
 					for _, pk := range fw.Publishes() {
 						if string(pk.Payload) == "foreign-will" && string(pk.Topic) == "w" {
@@ -237,7 +250,7 @@ func TestC13Wills(t *testing.T) {
 		},
 		func(i int) any { return paths[i] },
 		func(rep *vk.Report) {
-			rep.Rule = "full cross product of nodes (1-2 quick, 1-3 thorough) x non-empty subset of watcher nodes x will topic {w, w/x} x QoS {0,1,2} x retain x mount point {default, m1} x cause {disconnect, drop, keep-alive expiry, protocol error, failure of the hosting node}; three watchers (w, w/+, #) per watcher node plus one in another mount point; non-trivial = paths where a will was due"
+			rep.Rule = "full cross product of nodes (1-2 quick, 1-3 thorough) x non-empty subset of watcher nodes x will topic {w, w/x} x QoS {0,1,2} x retain x mount point {default, m1} x cause {disconnect, drop, keep-alive expiry, protocol error, failure of the hosting node, drop while the other nodes do not answer}; three watchers (w, w/+, #) per watcher node plus one in another mount point; non-trivial = paths where a will was due"
 			rep.Floor("wills_due", 50, rep.Nontrivial)
 		})
 }
